@@ -525,9 +525,16 @@ def _inv(a):
     if is_concrete(a):
         return np.linalg.inv(to_concrete(a))
     n = a.shape[0]
+    A = np.asarray(a, dtype=object)
+    if a.shape == (n, n) and n > 3:
+        sm = _scalar_multiple(A)
+        if sm is not None:
+            s, G = sm
+            Gi = np.linalg.inv(G)
+            inv_s = 1 / s
+            return _map(lambda g: inv_s * g, SymNd(Gi.astype(object)))
     if a.shape != (n, n) or n > 3:
         raise core.StubMiss(f"symbolic inverse of {a.shape} matrix not modelled")
-    A = np.asarray(a, dtype=object)
     if n == 1:
         return SymNd([[1 / Sym.of(A[0, 0])]])
     if n == 2:
@@ -546,6 +553,38 @@ def _inv(a):
         for j in range(3):
             out[i, j] = cof[j, i] / det
     return out.view(SymNd)
+
+
+def _scalar_multiple(A):
+    """A == s * G with one real symbolic scalar s and a concrete matrix G (every entry a rational multiple of the first
+    non-zero entry): returns (s, G) or None.  (s G)^-1 = (1/s) G^-1 needs no symbolic elimination."""
+    piv = None
+    for x in A.reshape(-1):
+        x = Sym.of(x)
+        if x.im.t:
+            return None
+        if x.re.t:
+            piv = x
+            break
+    if piv is None or piv.is_const():
+        return None
+    (m0, c0), = list(piv.re.t.items())[:1]
+    G = np.zeros(A.shape, dtype=float)
+    for pos in np.ndindex(A.shape):
+        x = Sym.of(A[pos])
+        if x.im.t:
+            return None
+        if not x.re.t:
+            continue
+        c = x.re.t.get(m0)
+        if c is None:
+            return None
+        f = c / c0
+        d = x.re.add(piv.re.scale(-f))
+        if d.t:
+            return None
+        G[pos] = float(f)
+    return piv, G
 
 
 def _conj(a, **kw):
@@ -709,6 +748,15 @@ class NpProxy(types.ModuleType):
 
     def eye(self, *a, **kw):
         return self._mk(np.eye(*a, **kw))
+
+    def sum(self, a, *args, **kw):
+        # np.sum(list of symbolic scalars, dtype=np.float64): the dtype request would realise the symbols
+        if MODE["symbolic"] and (has_sym(a) or _contains_symnd(a)) and not isinstance(a, SymNd):
+            kw.pop("dtype", None)
+            return _wrap(np.sum(_stack_obj(a), *args, **kw))
+        if MODE["symbolic"] and isinstance(a, SymNd):
+            kw.pop("dtype", None)
+        return _wrap(np.sum(a, *args, **kw))
 
     def identity(self, n, dtype=float, **kw):
         return self._mk(np.identity(n, dtype=dtype, **kw))
